@@ -307,7 +307,11 @@ def main():
     ev = dict(property_id=pid, tier=tier, seed=seed, level='proof', coverage=cov,
               assumptions=list(getattr(mod, 'ASSUMPTIONS', [])),
               wall_s=round(time.time() - t0, 2), violations=violations)
-    (C.VERIF / 'evidence' / ('%s.json' % pid)).write_text(json.dumps(ev, indent=1))
+    # evidence files describe /repo itself; a run against a scratch copy (VERIF_REPO, used for seeded changes and proposed
+    # repairs) must never overwrite them
+    ev_dir = C.VERIF / 'evidence' if str(C.REPO.resolve()) == '/repo' else C.VERIF / 'build' / 'evidence-scratch'
+    ev_dir.mkdir(parents=True, exist_ok=True)
+    (ev_dir / ('%s.json' % pid)).write_text(json.dumps(ev, indent=1))
     print('%s tier=%s seed=%d: %d/%d theorems closed; %d cases (%d corpus), %d compared in Coq, %d mismatches, %d oracle failures, %d known findings; %.1fs'
           % (pid, tier, seed, pa['discharged'], pa['obligations'], len(cases), n_corpus, len(terms), len(corr_fail), len(oracle_fail), len(seen_known), time.time() - t0))
     sys.exit(exit_code)
